@@ -414,7 +414,7 @@ func (r *checkRun) execute() int {
 				continue
 			}
 			seenViol[key] = true
-			rp := filepath.Join(verifDir, "replays", fmt.Sprintf("%s-%s-%s.json", r.prop, c.h.fn.Name(), sanitize(c.v.Label)))
+			rp := filepath.Join(outDir, "replays", fmt.Sprintf("%s-%s-%s.json", r.prop, c.h.fn.Name(), sanitize(c.v.Label)))
 			writeJSON(rp, map[string]any{
 				"property": r.prop, "harness": c.h.fn.Name(), "package_dir": c.h.dir, "label": c.v.Label, "detail": c.v.Detail,
 				"inputs": r.withBounds(c.v.Model), "schedule": c.v.Trace, "native": nr,
